@@ -4,6 +4,8 @@ Finger.Globs — `fingerprint.Globs` (internal/fingerprint/glob.go).
 
     resultMap := map[string]bool{}
     for _, g := range globs {
+        if g == nil { continue }         // fix O8-3: watch mode hands over the RAW task (`sources: [~]`); the model's
+                                         // pattern lists have no such entry (a nil entry contributes nothing)
         matches, err := glob(dir, g.Glob); if err != nil { continue }
         for _, match := range matches { resultMap[match] = !g.Negate }
     }
